@@ -5,6 +5,10 @@ CONSTANTS
   MaxF = 1
   UseStop = FALSE
   Flat = FALSE
+  Pre = FALSE
+  Shape = "any"
+  MaxP = 1
+  MaxW = 1
 SPECIFICATION Spec
 INVARIANTS InvExact InvRoundTrip InvNearest InvBounded PrintSchedules
 CHECK_DEADLOCK FALSE
